@@ -1,4 +1,5 @@
 pub mod exec_gen;
+pub mod from_ast;
 pub mod inputs;
 pub mod model;
 pub mod schema_gen;
